@@ -33,6 +33,7 @@ def run(ctx):
     ctx.guard(rule_d, ctx, ix)
     ctx.guard(rule_e, ctx, ix)
     ctx.guard(rule_f, ctx, ix)
+    ctx.guard(rule_g, ctx, ix)
 
 
 def rule_a(ctx, ix):
@@ -385,3 +386,51 @@ def rule_f(ctx, ix):
                       'parsed expression, the inner evaluation removes `__view` while the outer eval() still needs it - every reference '
                       'after the nested one raises NameError, on the whole dataset and on every view'
                       % (f.construct, norm(bad[0]) if bad else ''), where=where(f, bad[0]) if bad else f.where)
+
+
+def rule_g(ctx, ix):
+    """ComponentLink.replace_ids rewrites the link's own list of inputs (_from) and its output.  A subclass that evaluates through
+    its own copy of the inputs (operands, a parsed command with references) has to rewrite that copy too - siblings of one
+    interface: every subclass that overrides compute() and reads a field of its own there overrides replace_ids and touches it."""
+    R = 'C14.g'
+    ctx.describe(R, 'every link class that computes from its own copy of the inputs rewrites that copy in replace_ids', floor=2)
+    base = ix.cls('glue.core.component_link.ComponentLink')
+    n = 0
+    for c in base.subclasses(strict=True):
+        if not c.module.name.startswith('glue.') or '.tests' in c.module.name:
+            continue
+        mc = c.members.get('compute')
+        if mc is None or mc.func is None or mc.func.cls is not c:
+            continue
+        comp = mc.func
+        s_ = comp.self_name
+        init = c.members.get('__init__')
+        own = set()
+        if init is not None and init.func is not None and init.func.cls is c:
+            for st in ast.walk(init.func.node):
+                if isinstance(st, ast.Assign):
+                    for t in st.targets:
+                        if isinstance(t, ast.Attribute) and isinstance(t.value, ast.Name) and t.value.id == init.func.self_name:
+                            own.add(t.attr)
+        read = {a.attr for a in ast.walk(comp.node) if isinstance(a, ast.Attribute) and isinstance(a.value, ast.Name) and a.value.id == s_
+                and a.attr in own and isinstance(a.ctx, ast.Load)}
+        # fields that hold identifiers: assigned (directly or through a container) from constructor arguments that are ids or
+        # links - recognised here by being what compute() evaluates: operands and parsed commands
+        read = {f_ for f_ in read if not f_.startswith('_op') and f_ not in ('_using', '_inverse', 'coords', 'index', 'pixel2world', 'hidden')}
+        if not read:
+            continue
+        n += 1
+        mr = c.members.get('replace_ids')
+        g = mr.func if mr is not None and mr.func is not None and mr.func.cls is c else None
+        touched = set()
+        if g is not None:
+            touched = {a.attr for a in ast.walk(g.node) if isinstance(a, ast.Attribute) and isinstance(a.value, ast.Name) and a.value.id == g.self_name}
+        missing = sorted(read - touched)
+        ctx.ob(R, c.qualname, 'replace_ids rewrites every field compute() evaluates from (%s)' % ', '.join(sorted(read)), g is not None and not missing,
+               detail='%s computes from %s, its own copy of the input identifiers, but %s: after Data.update_id(old, new) the derived '
+                      'attribute still asks the dataset for the old identifier and raises IncompatibleAttribute'
+                      % (c.qualname, ', '.join('self.' + f_ for f_ in sorted(read)),
+                         'does not override replace_ids' if g is None else 'its replace_ids does not touch %s' % ', '.join(missing)),
+               where=comp.where)
+    if n < 2:
+        raise AnalysisError('C14.g: only %d link classes with their own copy of the inputs found' % n)
